@@ -502,7 +502,7 @@ func writeEvidence(a *agg, pl *procLevelResult, base uint64, bases []uint64, wal
 		"prelude-in-force-at-unterminated-final-query-using-a-bound-name", "failed-let-followed-by-use-of-its-name",
 		"failure-then-success-then-end-of-input", "two-or-more-statements-completed-by-one-line",
 		"statement-spanning-3-or-more-lines", "D1-empty-statement-between-semicolons", "D2-unterminated-trailing-let",
-		"script-with-line-over-64KiB", "query-whose-sql-depends-on-the-prelude",
+		"script-with-line-over-64KiB", "query-whose-sql-depends-on-the-prelude", "script-input-over-4KiB", "script-output-over-4KiB",
 	} {
 		if a.probes[p] == 0 {
 			reach = append(reach, "probe never hit: "+p)
